@@ -15,7 +15,7 @@
      - a model of NodeReplacer's propagation rules is sound (conflict => unsatisfiable),
      - a model of InternalSurfaceFlagger's rule implies IsCube.
    Once (ASSUME): IsCube <=> IsCubeFast for all 2^(2^NS) functions.                     *)
-EXTENDS Csg
+EXTENDS Csg, Json, IOUtils
 CONSTANTS NS, MaxNodes
 VARIABLE tree
 
@@ -202,6 +202,50 @@ SimpleRule(t, n) ==
 InvFlagRule == \A n \in Ids : LET F == Sem(NS, tree, n) IN
                  /\ IsCubeT(NS, TOfSet(NS, F)) = IsCube(NS, F)
                  /\ SimpleRule(tree, n) => IsCube(NS, F)
+
+\* ------------------------------------------- directed family (Csg.tla DMFamily)
+(* Design check + generation of the directed family for transform_negated_joins.  Evaluated
+   only when the environment names an output file (C10_FAMILY_OUT, level C10_FAMILY_LEVEL):
+   every symbolic case is well formed; replayed with the documented insert (RefInsert) it
+   yields a well formed tree in which pushing negations down (IT = De Morgan) denotes the
+   function of every volume of every volume set; the family really contains the shapes it is
+   meant for (a shared negated join whose LOWEST parent is a plain join and a higher parent a
+   negated join, and the converse order, with J not kept for any other reason).  Then the
+   family is written as ndjson for harness/vcsg.cc (mode fam).                              *)
+FamReplay(c) ==
+  FoldLeft(LAMBDA acc, o : LET r == RefInsert(acc.t, FamRequest(o, acc.ids)) IN
+                           [t |-> r.tree, ids |-> Append(acc.ids, r.id)],
+           [t |-> EmptyTree, ids |-> <<>>], c.ops)
+ParentsOf(t, n) == {k \in 0 .. (Len(t) - 1) : n \in Refs(t[k + 1])}
+HasNegation(t, p) == \E k \in 1 .. Len(t) : t[k] = NNot(p)
+\* n = !J shared by >= 2 joins; J has no other parent; lowest parent plain (or negated), a higher one the opposite
+SharedShape(t, lowestNegated) ==
+  \E n \in 2 .. (Len(t) - 1) :
+     /\ t[n + 1].k = "not" /\ IsJoin(t[t[n + 1].a[1] + 1])
+     /\ ParentsOf(t, t[n + 1].a[1]) = {n}
+     /\ LET ps == {p \in ParentsOf(t, n) : IsJoin(t[p + 1])}
+            lo == CHOOSE p \in ps : \A q \in ps : p <= q IN
+        /\ Cardinality(ps) >= 2
+        /\ HasNegation(t, lo) = lowestNegated
+        /\ \E p \in ps : HasNegation(t, p) # lowestNegated
+FamilyOK(fam) ==
+  /\ \A i \in DOMAIN fam : FamCaseWF(fam[i])
+  /\ \A i \in DOMAIN fam :
+        LET rp == FamReplay(fam[i])
+            tt == TT(FamNS, rp.t) IN
+        /\ WFTree(rp.t) /\ Dedup(rp.t)
+        /\ \A v \in DOMAIN fam[i].volsets : \A j \in DOMAIN fam[i].volsets[v] :
+              LET n == rp.ids[fam[i].volsets[v][j]]
+                  it == IT(rp.t, n, FALSE)
+                  rit == InfixTokSem(FamNS, it) IN
+              (\A q \in DOMAIN it : it[q] # -99) => (InfixTokWF(rit) /\ rit.fr[1].acc = tt[n + 1])
+  /\ \E i \in DOMAIN fam : fam[i].par.ju = 0 /\ SharedShape(FamReplay(fam[i]).t, FALSE)
+  /\ \E i \in DOMAIN fam : fam[i].par.ju = 0 /\ SharedShape(FamReplay(fam[i]).t, TRUE)
+ASSUME ("C10_FAMILY_OUT" \in DOMAIN IOEnv) =>
+         LET fam == DMFamily(atoi(IOEnv.C10_FAMILY_LEVEL)) IN
+         /\ FamilyOK(fam)
+         /\ ndJsonSerialize(IOEnv.C10_FAMILY_OUT, fam)
+         /\ PrintT(<<"FAMILY", Len(fam), FamTotal(atoi(IOEnv.C10_FAMILY_LEVEL))>>)
 
 \* ------------------------------------------------------- one-off algebraic facts
 ASSUME \A F \in SUBSET AllA(NS) : IsCube(NS, F) = IsCubeFast(NS, F) /\ IsCube(NS, F) = IsCubeT(NS, TOfSet(NS, F))
